@@ -7,6 +7,7 @@ package corerad
 
 import (
 	"fmt"
+	"io/fs"
 	"net"
 	"net/netip"
 	"os"
@@ -377,6 +378,19 @@ func runAdvertiser(t *testing.T, sc advScenario, hook func(w *simWorld, a *Adver
 				w.eventf("deliver %s x%d from %s hop=%d on conn %d", ev.Kind+ev.Msg, n, ev.From, hop, c.id)
 			case "flip":
 				w.setForwarding("eth0", ev.Value)
+			case "statefail":
+				// the forwarding state cannot be read from now on (Err: perm = EACCES on the sysctl file, other), or can again ("")
+				w.mu.Lock()
+				switch ev.Err {
+				case "":
+					w.fwdErr = nil
+				case "perm":
+					w.fwdErr = &fs.PathError{Op: "open", Path: "/proc/sys/net/ipv6/conf/eth0/forwarding", Err: syscall.EACCES}
+				default:
+					w.fwdErr = vkErrOf(ev.Err)
+				}
+				w.mu.Unlock()
+				w.eventf("forwarding state read fails: %q", ev.Err)
 			case "link":
 				w.eventf("link event")
 				select {
